@@ -235,6 +235,12 @@ def family_matrices(thorough):
         out.append(('scaled', [[0.0, 1.0 * sc, 2.0 * sc],
                                [1.0 * sc, 0.0, -1.0 * sc],
                                [2.0 * sc, 1.0 * sc, 0.0]]))
+    for tiny in (0.0, 1e-14):
+        for small in (1e-13, -1e-9, 1e-6):
+            out.append(('pivot-search', [[tiny, 2.0, 1.0], [1.0, 1.0, 0.0],
+                                         [small, 1.0, 3.0]]))
+            out.append(('pivot-search', [[3.0, 1.0, 2.0], [1.0, tiny, -1.0],
+                                         [2.0, small, 1.0]]))
     for n in (4, 5, 6):
         # strictly diagonally dominant base
         base = [[(n + 2.0 if i == j else ((i + 2 * j + i * j) % 2) * 2 - 1.0)
@@ -258,6 +264,19 @@ def family_matrices(thorough):
                 M = [row[:] for row in base]
                 M[k][k] = tiny
                 out.append(('tiny-pivot', M))
+        # pivot search: zero / tiny diagonal entry, large entries in the
+        # rows just below, a tiny non-zero entry in a later row (and zeros
+        # after it): only the largest entry of the column is a safe pivot
+        for k in range(n - 2):
+            for j in range(k + 2, n):
+                for tiny in (0.0, 1e-14):
+                    for small in (1e-13, -1e-9):
+                        M = [row[:] for row in base]
+                        M[k][k] = tiny
+                        M[j][k] = small
+                        for r in range(j + 1, n):
+                            M[r][k] = 0.0
+                        out.append(('pivot-search', M))
         # row scalings
         for k in range(n):
             for sc in (1e-3, 1e3):
@@ -495,7 +514,8 @@ def run(ctx):
                     '(4^(n*n)), 1-3 right-hand sides, directly and through '
                     'augmented_matrix with nmax>n; n=4..6: row permutations '
                     'of a diagonally dominant matrix, scaled permutation '
-                    'matrices, zero/tiny pivots in every position, row '
+                    'matrices, zero/tiny pivots in every position, pivot-'
+                    'search traps (tiny entry in a later row), row '
                     'scalings, singular members; each through the Python '
                     'source and through a transpiled+compiled build; eigen: '
                     'all symmetric 3x3 over {-2..2} x scale {1e-8,1,1e8}; '
